@@ -14,6 +14,7 @@ import (
 
 	proxyv1alpha1 "github.com/kubewharf/kubegateway/pkg/apis/proxy/v1alpha1"
 	"github.com/kubewharf/kubegateway/pkg/clusters"
+	"github.com/kubewharf/kubegateway/pkg/clusters/features"
 	gatewayflowcontrol "github.com/kubewharf/kubegateway/pkg/flowcontrols"
 
 	mg "verifharness/matchgen"
@@ -224,4 +225,24 @@ func obsDiff(a, b Obs, withProbes bool) []string {
 		cmp("routing-probes", a.Probes, b.Probes)
 	}
 	return d
+}
+
+type mgAttrs = mg.Attrs
+
+// realGates: DefaultMutableFeatureGate.DeepCopy().Set(v) and Enabled of every gate ("error" when refused).
+func realGates(v string) string {
+	g := featuresDefaultCopy()
+	if err := g.Set(v); err != nil {
+		return "error"
+	}
+	var l []string
+	for _, n := range gateNames {
+		l = append(l, fmt.Sprintf("%s=%v", n, g.Enabled(n)))
+	}
+	sort.Strings(l)
+	return strings.Join(l, ",")
+}
+
+func featuresDefaultCopy() featuregate.MutableFeatureGate {
+	return features.DefaultMutableFeatureGate.DeepCopy()
 }
